@@ -82,4 +82,9 @@ def parsePageHeaderC (data : Bytes) : Except Err (PageHdr × Nat) :=
   | some e => .error e
   | none => .ok ((parsePageHeaderCX data).val, (parsePageHeaderCX data).consumed)
 
+/-- `parquet_parse_page_header` BEFORE fix F62 (`thrift_skip` ignored a fixed-width value that the buffer ends
+inside): the function the fread header window was built on; kept for `C06_regression_F62` -/
+def parsePageHeaderCXPreF62 (data : Bytes) : ParseResult PageHdr :=
+  topParse (pageHdrBody { Cfg.fixed with skipTruncated := false }) (⟨0, 0, 0, none, 0, 0⟩ : PageHdr) data
+
 end Carquet.Impl.ThriftParquetReq
